@@ -87,7 +87,7 @@ pub fn run_deltas(case: &Case) -> RunOutcome {
         .files
         .iter()
         .enumerate()
-        .map(|(i, rows)| DescribedReader::from_string(format!("file{i}.csv"), csv_text_variant(rows, case.hdr.get(i).cloned().unwrap_or(0))))
+        .map(|(i, _rows)| DescribedReader::from_string(format!("file{i}.csv"), case.file_text(i)))
         .collect();
     let res = catch_unwind(AssertUnwindSafe(|| {
         let (loader, _c, _r) = new_test_rate_loader(false);
